@@ -24,7 +24,8 @@ Record tcase := mkCase {
   o_log : list N;           (* events of the call, oldest first *)
   o_idle : list nat;        (* VerifIdle: callStack tryStack iterStack jobQueue interrupted *)
   o_sp0 : bool;             (* VerifIdle: sp = 0 *)
-  o_fkind : nat; o_ftok : N; o_flog : list N; o_fidle : list nat   (* the follow-up RunString("log(776); 1+1") *)
+  o_fkind : nat; o_ftok : N; o_flog : list N; o_fidle : list nat;  (* the follow-up RunString *)
+  o_fdepth : nat            (* frames of new Error().stack taken in a function called by the follow-up program *)
 }.
 
 Definition okind (o : outcome) : nat := match o with ONorm => 0 | OIntr _ => 1 | OThrow => 2 end.
@@ -65,7 +66,10 @@ Definition matches (c : tcase) (p : pred) : bool :=
 
 (* goja's frame discipline now is the specification (F16, F20 repaired): one model, one verdict.  Behaviour that
    still deviates (open findings) shows up as a mismatch and is classified by the narrow predicates. *)
-Definition check_case (c : tcase) : bool := matches c (run_case c) && o_sp0 c.
+(* a stack captured by an unrelated later run at top level sees exactly its own two frames (the function and the
+   program): nothing of the interrupted run is left *)
+Definition followup_depth : nat := 2.
+Definition check_case (c : tcase) : bool := matches c (run_case c) && o_sp0 c && Nat.eqb (o_fdepth c) followup_depth.
 
 Fixpoint mismatch_from (i : N) (cs : list tcase) : list N :=
   match cs with
